@@ -40,6 +40,133 @@ def abstract_raisers(facts):
     return out
 
 
+class _EveryDirectoryIsAPackage(object):
+    """A file system in which every probe succeeds: every directory, the current one and the root included, holds an __init__.py."""
+    def __contains__(self, path):
+        return True
+
+
+def check_path_climbing(repo, res, facts):
+    """Project.norm_package climbs from a file towards the outermost package directory.  The climb must end whatever the file system
+    says: os.path.dirname has fixed points ('' for a relative name - an unnamed buffer is '<string>' -, '/' for an absolute one)."""
+    from ..absint import Interp, InterpRaise, Uninterpretable
+    proj = facts.classes.get('Project')
+    if proj is None or 'norm_package' not in proj.methods:
+        raise AnalysisError('Project.norm_package vanished')
+    fn = proj.methods['norm_package']
+    n = 0
+    for fname in ('<string>', 'buffer.py', 'pkg/mod.py', '/abs/pkg/mod.py'):
+        for spec in ('.x', '..x', '.'):
+            it = Interp(repo, facts)
+            it.fs = _EveryDirectoryIsAPackage()
+            it.reset_path([])
+            it.MAX_STEPS = 20000
+            n += 1
+            how = None
+            try:
+                p = it.instantiate(proj, [['<R>']], {})
+                it.call(it.getattr(p, 'norm_package'), [spec, fname], {})
+            except InterpRaise:
+                pass                          # ImportError (or whatever: which exception is R1's subject)
+            except Uninterpretable as e:
+                if 'unbounded' in str(e) or 'budget' in str(e):
+                    how = str(e)
+                else:
+                    raise AnalysisError('norm_package is outside the interpretable subset: %s' % e)
+            res.check('C08-R4', 'norm_package(%r) from %r terminates when every directory is a package' % (spec, fname), how is None,
+                      fn.rel, fn.node.lineno,
+                      'with an __init__.py in every directory the file name is climbed from (the current directory for a relative name or an '
+                      'unnamed buffer, the root for an absolute one) Project.norm_package(%r, %r) does not come to an end: os.path.dirname '
+                      'has a fixed point and the loop does not notice it (%s) -> assist / location never return' % (spec, fname, how),
+                      sample='norm_package(%r, %r) ends at the fixed point of dirname' % (spec, fname))
+    res.count('path_climbing_scenarios', n, floor=12)
+
+
+STR_ONLY_CALLS = ('os.path.dirname', 'os.path.join', 'os.path.basename', 'os.path.exists', 'os.path.abspath', 'os.path.split',
+                  'dirname', 'join', 'basename', 'exists', 'abspath')
+
+
+def check_optional_parameters(repo, res, facts, cg):
+    """A parameter of an API entry point whose default is None (the file name of an unnamed buffer) must not reach an operation that
+    needs a string.  Followed through the repository functions it is handed to (two levels); a use under a truth test of the value,
+    `x or ...`, or as an argument of a class constructor (Source normalises it) is fine."""
+    entries = [k for k in ('supp/assistant.py:assist', 'supp/assistant.py:location', 'supp/assistant.py:usages', 'supp/linter.py:lint')
+               if k in facts.funcs]
+    n = 0
+
+    def guarded(node, name):
+        p = getattr(node, '_parent', None)
+        child = node
+        while p is not None:
+            if isinstance(p, ast.If) and child in p.body and name in {x.id for x in ast.walk(p.test) if isinstance(x, ast.Name)}:
+                return True
+            if isinstance(p, ast.BoolOp) and isinstance(p.op, ast.Or) and child is not p.values[-1]:
+                return True
+            if isinstance(p, ast.IfExp) and name in {x.id for x in ast.walk(p.test) if isinstance(x, ast.Name)}:
+                return True
+            child, p = p, getattr(p, '_parent', None)
+        return False
+
+    def follow(fi, pname, trail, depth):
+        # the parameter and the locals that are plain copies of it (root = filename)
+        names = {pname}
+        for st in ast.walk(fi.node):
+            if isinstance(st, ast.Assign) and isinstance(st.value, ast.Name) and st.value.id in names:
+                names.update(t.id for t in st.targets if isinstance(t, ast.Name))
+        for c in ast.walk(fi.node):
+            if not isinstance(c, ast.Call):
+                continue
+            for i, a in enumerate(c.args):
+                if not (isinstance(a, ast.Name) and a.id in names) or guarded(c, a.id):
+                    continue
+                f = unparse(c.func)
+                if f in STR_ONLY_CALLS:
+                    yield trail + ['%s(%s)' % (f, pname)], c
+                    continue
+                if depth >= 2:
+                    continue
+                for t, typed, node in cg.edges.get(fi.key, []):
+                    if node is c and t in facts.funcs:
+                        callee = facts.funcs[t]
+                        if callee.name == '__init__':
+                            continue              # a constructor: the object normalises what it is given
+                        params = callee.params()
+                        if callee.cls is not None and params and params[0] in ('self', 'cls'):
+                            params = params[1:]
+                        if i < len(params):
+                            for x in follow(callee, params[i], trail + ['%s(..%s..)' % (callee.qual, params[i])], depth + 1):
+                                yield x
+    for k in entries:
+        fi = facts.funcs[k]
+        a = fi.node.args
+        pos = a.posonlyargs + a.args
+        optional = [p.arg for p, d in zip(pos[len(pos) - len(a.defaults):], a.defaults) if isinstance(d, ast.Constant) and d.value is None]
+        for pname in optional:
+            # the parameter may be re-bound to a normalised value at the top of the function (filename = source.filename)
+            rebound = [st for st in fi.node.body if isinstance(st, ast.Assign) and any(isinstance(t, ast.Name) and t.id == pname for t in st.targets)]
+            first_rebind = min([st.lineno for st in rebound] or [10 ** 9])
+            n += 1
+            hits = [(tr, c) for tr, c in follow(fi, pname, [fi.qual], 0)
+                    if not (tr[0] == fi.qual and len(tr) >= 1 and _call_line(fi, tr, c) > first_rebind)]
+            res.check('C08-R1', '%s(%s=None) reaches no string-only operation' % (fi.qual, pname), not hits, fi.rel, fi.node.lineno,
+                      'the parameter %s of %s defaults to None (an unnamed buffer) and is handed on unchanged: %s - os.path functions raise '
+                      'TypeError on None, which escapes the API (the Source object built from the same arguments knows the name "<string>")'
+                      % (pname, fi.qual, ' -> '.join(hits[0][0]) if hits else ''),
+                      sample='%s: %s is only handed to constructors or used after it was replaced by a normalised value' % (fi.qual, pname))
+    res.count('optional_api_parameters', n, floor=3)
+
+
+def _call_line(fi, trail, call):
+    """line in the entry function at which the chain starts: the call itself when the chain has one link, else unknown (0)"""
+    for c in ast.walk(fi.node):
+        if c is call:
+            return call.lineno
+    # the chain goes through a callee: find the first call in the entry function that can start it
+    first = trail[1].split('(')[0].split('.')[-1] if len(trail) > 1 else ''
+    lines = [c.lineno for c in ast.walk(fi.node) if isinstance(c, ast.Call) and unparse(c.func).split('.')[-1] == first]
+    return min(lines) if lines else 0
+
+
 def run(repo, res):
     facts = get_facts(repo)
     cg = get_callgraph(repo)
@@ -229,6 +356,13 @@ def check_protocols(repo, res, facts):
             nsites += 1
             guarded = caught_by(n, 'AttributeError', owner[id(n)].node) or is_getattr_guarded(n)
             fam = narrow(n, family, facts, owner[id(n)].node)
+            if isinstance(n.value, ast.Name):
+                # a local that only ever holds an object the function constructs itself (source = Source(...)) is of that class
+                binds = [st for st in ast.walk(owner[id(n)].node) if isinstance(st, ast.Assign)
+                         and any(isinstance(t, ast.Name) and t.id == n.value.id for t in st.targets)]
+                ctor = {unparse(st.value.func) for st in binds if isinstance(st.value, ast.Call)}
+                if binds and all(isinstance(st.value, ast.Call) for st in binds) and len(ctor) == 1 and next(iter(ctor)) in facts.classes:
+                    fam = {next(iter(ctor))}
             missing = sorted(c for c in fam if not provides_deep2(facts.classes[c], attr))
             key = '%s reads %s.%s' % (fq, unparse(n.value), attr)
             res.check('C08-R3', key, guarded or not missing, rel, n.lineno,
@@ -432,3 +566,5 @@ def check_recursion(repo, res, facts, cg):
     api_model.apply(res, api_model.declarations_model(repo), {'cycle': 'C08-R4'}, 'supp/evaluator.py', 0)
     # those guards compare by identity: the project must hand out one module object per name within a request
     api_model.apply(res, api_model.cache_history_model(repo, 3), {'identity': 'C08-R4'}, 'supp/project.py', 0)
+    check_path_climbing(repo, res, facts)
+    check_optional_parameters(repo, res, facts, cg)
